@@ -11,6 +11,7 @@ deliveries (no block inside `event()`).
 import EdzedModel.Dispatch
 import EdzedProofs.Dispatch
 import EdzedProofs.DispatchTie
+import EdzedProofs.DispatchPersist
 import EdzedProofs.HandlersTie
 import EdzedModel.Gen.Constants
 
@@ -154,12 +155,12 @@ theorem eventcond_none_is_harmless (c : Circ) (fuel : Nat) (s : St) (d : Nat) (b
 theorem unknown_event_is_harmless (c : Circ) (fuel : Nat) (s : St) (d : Nat) (b : Blk) (et : EType)
     (data : Data) (hb : c.blocks[d]? = some b) (ht : et.check = Option.none)
     (ha : s.active d = false) (hi : s.init d ≠ .pending)
-    (hn : et.resolve (dataTruthy data) ≠ .none) (hk : b.kind ≠ .fsm)
+    (hn : et.resolve (dataTruthy data) ≠ .none) (hk : b.kind ≠ .fsm) (hk2 : b.kind ≠ .repeat)
     (hl : lookupHandler b.kind (et.resolve (dataTruthy data)) = Option.none) :
     deliver c (fuel + 1) s d et data = (s, .exc .unknownEvent) := by
   unfold deliver
   simp only [hb, ht, ha, Bool.false_eq_true, if_false, eventBody, hn, earlyInit, hi, andThen,
-    callHandler, hl, hk]
+    callHandler, hl, hk, hk2]
   rw [state_restored s d ha]
 
 /-- an event with wrong parameters (the call of the handler does not bind): TypeError for the
@@ -168,13 +169,13 @@ theorem parameter_error_is_harmless (c : Circ) (fuel : Nat) (s : St) (d : Nat) (
     (data : Data) (h : String × List String × List String × Bool)
     (hb : c.blocks[d]? = some b) (ht : et.check = Option.none)
     (ha : s.active d = false) (hi : s.init d ≠ .pending)
-    (hn : et.resolve (dataTruthy data) ≠ .none) (hk : b.kind ≠ .fsm)
+    (hn : et.resolve (dataTruthy data) ≠ .none) (hk : b.kind ≠ .fsm) (hk2 : b.kind ≠ .repeat)
     (hl : lookupHandler b.kind (et.resolve (dataTruthy data)) = some h)
     (hp : paramsOk h data = false) :
     deliver c (fuel + 1) s d et data = (s, .exc .typeError) := by
   unfold deliver
   simp only [hb, ht, ha, Bool.false_eq_true, if_false, eventBody, hn, earlyInit, hi, andThen,
-    callHandler, hl, hp, Bool.not_false, if_true, hk]
+    callHandler, hl, hp, Bool.not_false, if_true, hk, hk2]
   rw [state_restored s d ha]
 
 /-- a malformed event type is rejected before the guard is touched – even by a busy block -/
@@ -188,7 +189,7 @@ theorem malformed_type_is_harmless (c : Circ) (fuel : Nat) (s : St) (d : Nat) (b
     in particular the outcomes above neither lock a block nor stop the simulation -/
 theorem harmless_outcomes_do_not_abort (c : Circ) (fuel : Nat) (s : St) (d : Nat) (b : Blk)
     (et : EType) (data : Data) (hb : c.blocks[d]? = some b) (ha : s.active d = false)
-    (hi : s.init d ≠ .pending) (hk : b.kind ≠ .fsm)
+    (hi : s.init d ≠ .pending) (hk : b.kind ≠ .fsm) (hk2 : b.kind ≠ .repeat)
     (hcase : et.check.isSome ∨ (et.check = Option.none ∧ (et.resolve (dataTruthy data) = .none ∨
       (et.resolve (dataTruthy data) ≠ .none ∧
         (lookupHandler b.kind (et.resolve (dataTruthy data)) = Option.none ∨
@@ -198,8 +199,8 @@ theorem harmless_outcomes_do_not_abort (c : Circ) (fuel : Nat) (s : St) (d : Nat
   · obtain ⟨x, hx⟩ := Option.isSome_iff_exists.1 h
     rw [malformed_type_is_harmless c fuel s d b et data x hb hx]
   · rw [eventcond_none_is_harmless c fuel s d b et data hb ht ha h]
-  · rw [unknown_event_is_harmless c fuel s d b et data hb ht ha hi hn hk h]
-  · rw [parameter_error_is_harmless c fuel s d b et data h hb ht ha hi hn hk hl hp]
+  · rw [unknown_event_is_harmless c fuel s d b et data hb ht ha hi hn hk hk2 h]
+  · rw [parameter_error_is_harmless c fuel s d b et data h hb ht ha hi hn hk hk2 hl hp]
 
 /-! ### FSM blocks: the documented window and the timer -/
 
@@ -207,20 +208,103 @@ theorem harmless_outcomes_do_not_abort (c : Circ) (fuel : Nat) (s : St) (d : Nat
     `FSM._event` (only possible through the window `with self._enable_event` around the entry action
     or the start of a zero-delay timer) is parked – exactly one – and acknowledged with True -/
 theorem chained_request_is_parked (dlv : Dlv) (b : Blk) (d : Nat) (stk0 : List Frame) (s : St)
-    (et : EType) (ns : Nat) (ht : fsmTarget b (s.fstate d) et = .to ns) (ha : s.fsmActive d = true)
-    (hn : s.nextEv d = Option.none) :
-    fsmEvent dlv b d stk0 s et = ({ s with nextEv := upd s.nextEv d (some ns) }, .ret (.bool true)) := by
-  unfold fsmEvent
-  simp [ht, ha, hn]
+    (ns : Nat) (data : Data) (ha : s.fsmActive d = true) (hn : s.nextEv d = Option.none) :
+    fsmAccept dlv b d stk0 s ns data =
+      ({ s with nextEv := upd s.nextEv d (some (ns, data)) }, .ret (.bool true)) := by
+  unfold fsmAccept
+  simp [ha, hn]
 
 /-- … a second request in the same transition raises EdzedCircuitError ("Forbidden event
     multiplication") inside the handler, which stops the simulation (`exception_leaving_handler_aborts`) -/
 theorem second_chained_request_is_refused (dlv : Dlv) (b : Blk) (d : Nat) (stk0 : List Frame) (s : St)
-    (et : EType) (ns ns' : Nat) (ht : fsmTarget b (s.fstate d) et = .to ns) (ha : s.fsmActive d = true)
-    (hn : s.nextEv d = some ns') :
-    fsmEvent dlv b d stk0 s et = (s, .exc .circuitError) := by
+    (ns : Nat) (data : Data) (nx : Nat × Data) (ha : s.fsmActive d = true) (hn : s.nextEv d = some nx) :
+    fsmAccept dlv b d stk0 s ns data = (s, .exc .circuitError) := by
+  unfold fsmAccept
+  simp [ha, hn]
+
+/-! ### FSM blocks: `cond_EVENT` callbacks (user code inside the handler) -/
+
+/-- an event with a transition is accepted (parked or executed: `fsmAccept`) exactly after its condition
+    returned a true value, in the state the callback left … -/
+theorem cond_true_accepts_event (dlv : Dlv) (b : Blk) (d : Nat) (stk0 : List Frame) (s s' : St)
+    (et : EType) (data : Data) (ns : Nat) (ht : fsmTarget b (s.fstate d) et = .to ns)
+    (hc : fsmCond dlv b d s et data = (s', .ret (.bool true))) :
+    fsmEvent dlv b d stk0 s et data = fsmAccept dlv b d stk0 s' ns data := by
   unfold fsmEvent
-  simp [ht, ha, hn]
+  simp [ht, hc, Val.bool, Val.truthy, Atom.truthy]
+
+/-- … a condition returning false REJECTS the event: `_event` returns False, and nothing of the FSM has
+    changed beyond what the callback itself did – no transition, no parked request, `_fsm_event_active`
+    untouched; the block is unlocked by the `finally` of `event()` like after any other outcome
+    (`guard_balanced`, `cond_rejection_is_harmless`) -/
+theorem cond_false_rejects_event (dlv : Dlv) (b : Blk) (d : Nat) (stk0 : List Frame) (s s' : St)
+    (et : EType) (data : Data) (ns : Nat) (ht : fsmTarget b (s.fstate d) et = .to ns)
+    (hc : fsmCond dlv b d s et data = (s', .ret (.bool false))) :
+    fsmEvent dlv b d stk0 s et data = (s', .ret (.bool false)) := by
+  unfold fsmEvent
+  simp [ht, hc, Val.bool, Val.truthy, Atom.truthy]
+
+/-- … an exception of the callback (incl. the refusal of an event it sent) leaves the handler: it is
+    classified by `SBlock.event` (`exception_leaving_handler_aborts`) -/
+theorem cond_exception_leaves_handler (dlv : Dlv) (b : Blk) (d : Nat) (stk0 : List Frame) (s s' : St)
+    (et : EType) (data : Data) (ns : Nat) (x : Exc) (ht : fsmTarget b (s.fstate d) et = .to ns)
+    (hc : fsmCond dlv b d s et data = (s', .exc x)) :
+    fsmEvent dlv b d stk0 s et data = (s', .exc x) := by
+  unfold fsmEvent
+  simp [ht, hc]
+
+/-- the callback runs INSIDE the handler, before `_fsm_event_active` is consulted: flags, frames and
+    `_fsm_event_active` are the same before and after it, whatever it sends (so an event it sends that leads
+    back to this FSM meets the set guard and is refused: `recursion_is_refused_and_aborts`; it is not one
+    of the documented windows: `no_nested_handling` holds with the callback running in phase `handler`) -/
+theorem cond_callback_runs_with_guard_set (c : Circ) (fuel : Nat) (b : Blk) (d : Nat) (s : St) (et : EType)
+    (data : Data) :
+    (fsmCond (deliver c fuel) b d s et data).1.active = s.active ∧
+    (fsmCond (deliver c fuel) b d s et data).1.stack = s.stack ∧
+    (fsmCond (deliver c fuel) b d s et data).1.fsmActive = s.fsmActive :=
+  let f := fsmCond_frm (deliver_frm c fuel) b d s et data
+  ⟨f.active, f.stack, f.fsm⟩
+
+/-- conditions are consulted for named events of an initialised FSM only (not for Goto, not during the
+    initial transition) -/
+theorem cond_not_consulted (dlv : Dlv) (b : Blk) (d : Nat) (s : St) (et : EType) (data : Data)
+    (h : (∃ st, et = .goto st) ∨ (s.out d).isUndef = true) :
+    fsmCond dlv b d s et data = (s, .ret (.bool true)) := by
+  unfold fsmCond
+  rcases h with ⟨st, rfl⟩ | h
+  · rfl
+  · split <;> simp_all
+
+/-- a top-level event rejected by a condition without statements: the whole `event()` call returns False
+    and the state is as before – apart from the (ghost) enter/exit record of the handler: no block locked,
+    no abort, no transition, no timer touched -/
+theorem cond_rejection_is_harmless (c : Circ) (fuel : Nat) (s : St) (d : Nat) (b : Blk) (ev : String)
+    (data : Data) (ns : Nat) (cv : CondVal)
+    (hb : c.blocks[d]? = some b) (hk : b.kind = .fsm) (ha : s.active d = false) (hi : s.init d ≠ .pending)
+    (ho : (s.out d).isUndef = false) (ht : fsmTarget b (s.fstate d) (.name ev) = .to ns)
+    (hc : b.conds.find? (·.1 == ev) = some (ev, [], cv)) (hv : cv.eval data = false) :
+    deliver c (fuel + 1) s d (.name ev) data =
+      ({ s with trace := .exit d true :: .enter d (handlerDepth s.stack d + 1) (data.get? "value")
+                  (windowDepth s.stack d) :: s.trace }, .ret (.bool false)) := by
+  have hcond : ∀ s4 : St, s4.out = s.out → fsmCond (deliver c fuel) b d s4 (.name ev) data = (s4, .ret (.bool false)) := by
+    intro s4 h4
+    unfold fsmCond
+    simp [h4, ho, hc, runActs, andThen, hv]
+  unfold deliver
+  simp only [hb, EType.check, ha, Bool.false_eq_true, if_false, eventBody, EType.resolve, earlyInit, hi,
+    andThen, callHandler, hk, if_true, inHandler]
+  have hne : (EType.name ev = EType.none) = False := by simp
+  simp only [hne, if_false]
+  have hev := cond_false_rejects_event (deliver c fuel) b d s.stack
+    { s with active := upd s.active d true, stack := ⟨d, .handler⟩ :: s.stack,
+             trace := .enter d (handlerDepth s.stack d + 1) (data.get? "value") (windowDepth s.stack d) :: s.trace }
+    _ (.name ev) data ns ht (hcond _ rfl)
+  rw [hev]
+  simp only [classify]
+  congr 1
+  cases s
+  simp only [St.mk.injEq, and_true, true_and]
+  exact upd_restore _ _ ha
 
 /-- the window is closed again on every outcome of what runs inside it: flag and frame of the FSM
     are as before (the handler goes on with the guard set) -/
@@ -230,6 +314,25 @@ theorem window_is_closed (c : Circ) (fuel : Nat) (b : Blk) (d : Nat) (stk0 : Lis
     (fsmWindow (deliver c fuel) b d stk0 s wb).1.stack = s.stack :=
   ⟨(fsmWindow_frm (deliver_frm c fuel) b d stk0 s wb hs).active,
    (fsmWindow_frm (deliver_frm c fuel) b d stk0 s wb hs).stack⟩
+
+/-- the `duration` item of the event that caused the transition overrides the default duration of the timed
+    state; absent (or None) the default applies -/
+theorem duration_item_overrides_default (dflt : Nat) (q : Rat) (k : Kind) :
+    effDuration Option.none dflt = dflt ∧ effDuration (some Val.none) dflt = dflt ∧
+    effDuration (some (.atom (.num q k))) dflt = (if q ≤ 0 then 0 else 1) := ⟨rfl, rfl, rfl⟩
+
+/-- a zero (or negative) duration – by default or through the `duration` item – makes the expiry a nested
+    `self.event(timed_event)` INSIDE the documented window (`_start_timer` runs under `_enable_event`): it is
+    the one chained transition, parked like a request of the entry action (`chained_request_is_parked`);
+    a positive one only arms the timer, whose expiry is a later top-level event (`timer_expiry_is_an_event`) -/
+theorem zero_duration_is_a_chained_transition (dlv : Dlv) (b : Blk) (d : Nat) (s : St) (st : Nat)
+    (duration : Option Val) (ev : EType) (dur : Nat) (ht : b.timed.getD st Option.none = some (ev, dur)) :
+    winBody dlv b d s (.startTimer st duration) =
+      if effDuration duration dur = 0 then dlv s d ev []
+      else if s.timersEnabled then ({ s with timer := upd s.timer d (some ev) }, .ret .none)
+      else (s, .ret .none) := by
+  unfold winBody
+  simp only [ht]
 
 /-- the expiry of a timer is an event like any other: it enters through `deliver` (guard, frames,
     refusal, abort), so all theorems above apply to timer-driven transitions; no block is left locked -/
@@ -254,6 +357,216 @@ theorem fsm_initial_transition_is_an_event (dlv : Dlv) (b : Blk) (d : Nat) (s : 
     (hu : (s.out d).isUndef = true) : initFromValue dlv b d s = dlv s d (.goto 0) [] := by
   unfold initFromValue
   simp [hk, hu]
+
+/-! ### Repeat blocks: the forward from inside the handler, the repetitions from the main task
+
+`guard_balanced`, `no_nested_handling`, `refusal_stops_simulation`, `fuel_suffices` above are stated for every
+circuit – Repeat blocks included (`BKind.repeat`: `callHandler` runs `repeatEvent` inside the block's handler
+frame; the inductions of EdzedProofs/Dispatch.lean go through it).  What follows is specific to Repeat. -/
+
+/-- `Repeat._event` forwards the event with the block's own guard SET: the state in which the destination
+    is entered has `_event_active` of the Repeat block true whenever the handler was entered by `deliver`;
+    hence a destination chain that leads back to the Repeat block – or a sender that is still busy – is
+    refused like any other recursion (`recursion_is_refused_and_aborts`): the forward is one step of the
+    ordinary `sendEdges` on the single edge `Event(dest, etype)`, run between `set_output(0)` and the queuing -/
+theorem repeat_forwards_inside_handler (dlv : Dlv) (b : Blk) (d : Nat) (s : St) (data : Data) :
+    repeatEvent dlv b d s b.retype data =
+      andThen (setOutput dlv b d s (.int 0)) fun s1 =>
+      andThen (sendEdges dlv d s1 [repeatEdge b] (withRepeat (withOrigSource data) 0)) fun s2 =>
+      ({ s2 with rcur := upd s2.rcur d (some (withOrigSource data, 0)) }, .ret .none) := by
+  unfold repeatEvent
+  simp
+
+/-- … and while the forward runs the Repeat block is locked and its handler frame is on the stack (for every
+    state the handler can be in): the guard is untouched by `set_output(0)` and everything it triggers -/
+theorem repeat_is_locked_during_forward (c : Circ) (fuel : Nat) (b : Blk) (d : Nat) (s : St) (v : Val)
+    (ha : s.active d = true) : (setOutput (deliver c fuel) b d s v).1.active d = true := by
+  rw [(setOutput_frm (deliver_frm c fuel) b d s v).active]; exact ha
+
+/-- a forward that fails (refused recursion, unknown type, parameter error, error in the destination) leaves
+    `Repeat._event` before `self._queue.put_nowait(data)`: nothing is queued, nothing will be repeated
+    (the dispatch-level form of C18's `translated_refused_forward_queues_nothing`) -/
+theorem repeat_failed_forward_queues_nothing (dlv : Dlv) (b : Blk) (d : Nat) (s : St) (et : EType)
+    (data : Data) (x : Exc) (h : (repeatEvent dlv b d s et data).2 = .exc x) :
+    (repeatEvent dlv b d s et data).1 = (setOutput dlv b d s (.int 0)).1 ∨
+    (repeatEvent dlv b d s et data).1 =
+      (sendEdges dlv d (setOutput dlv b d s (.int 0)).1 [repeatEdge b] (withRepeat (withOrigSource data) 0)).1 := by
+  unfold repeatEvent at h ⊢
+  split at h
+  · cases h
+  · simp only [andThen] at h ⊢
+    split at h
+    · left; split <;> simp_all
+    · split at h
+      · right
+        split <;> simp_all
+      · cases h
+
+/-- an event of another type is ignored (logged once): no output change, nothing sent, nothing queued -/
+theorem repeat_other_event_is_ignored (dlv : Dlv) (b : Blk) (d : Nat) (s : St) (et : EType) (data : Data)
+    (h : et ≠ b.retype) : repeatEvent dlv b d s et data = (s, .ret .none) := by
+  unfold repeatEvent
+  simp [h]
+
+/-- **A repetition is a fresh top-level delivery**: the main task sends it from outside of every handler.
+    It starts from the very flags of the idle circuit (all `_event_active` false, no `event()` frame: the
+    state handed to `resendBody` is `s` with only the repetition counter updated) and leaves them false –
+    whatever happened (handled, refused somewhere down the chain, failed; then the task's monitor aborts) -/
+theorem repeat_resend_is_top_level (c : Circ) (s : St) (d : Nat) (p : St × Res) (h : Idle s)
+    (hr : resend c s d = some p) :
+    Idle p.1 ∧ ∃ b data rep, c.blocks[d]? = some b ∧ b.kind = .repeat ∧ s.rcur d = some (data, rep) ∧
+      repeatGoesOn b rep = true ∧
+      p = taskOutcome d (resendBody (deliver c c.fuel) b d s data (rep + 1)) ∧
+      Idle { s with rcur := upd s.rcur d (some (data, rep + 1)) } := by
+  refine ⟨h.of_frm (resend_frm c s d p hr), ?_⟩
+  unfold resend at hr
+  split at hr
+  · rename_i b data rep hb hc
+    split at hr
+    · rename_i hk
+      simp only [Bool.and_eq_true, decide_eq_true_eq] at hk
+      cases hr
+      exact ⟨b, data, rep, hb, hk.1, hc, hk.2, rfl, h⟩
+    · cases hr
+  · cases hr
+
+/-- every handler entered during a repetition has nesting depth 1 -/
+theorem no_nested_handling_resend (c : Circ) (s : St) (d : Nat) (p : St × Res) (h : Idle s)
+    (ht : s.trace = []) (hr : resend c s d = some p) : ∀ t ∈ p.1.trace, t.ok :=
+  (resend_good c s d p hr ⟨h.inv, by intro t; simp [ht]⟩).2
+
+/-- if the chain of a repetition loops back (to the Repeat block, which is inside its handler again when it
+    forwards, or to any other busy block) the event is refused and the simulation stopped -/
+theorem refusal_stops_simulation_resend (c : Circ) (s : St) (d : Nat) (p : St × Res) (ht : s.trace = [])
+    (hr : resend c s d = some p) (x : Nat) (hx : TItem.refused x ∈ p.1.trace) : p.1.error.isSome :=
+  resend_refAbort c s d p hr (by intro ⟨y, hy⟩; simp [ht] at hy) ⟨x, hx⟩
+
+/-- an exception that ends the main task stops the simulation (`AddonAsync._task_monitor`) and ends the
+    repetitions of the block -/
+theorem failed_resend_aborts (d : Nat) (p : St × Res) (x : Exc) (h : p.2 = .exc x) (hx : x ≠ .outOfFuel) :
+    (taskOutcome d p).1.error.isSome ∧ (taskOutcome d p).1.rcur d = Option.none ∧
+    (taskOutcome d p).2 = .exc x := by
+  obtain ⟨s', r⟩ := p
+  simp only at h
+  subst h
+  cases x <;> first
+    | exact absurd rfl hx
+    | exact ⟨abort_error _ _, by simp [taskOutcome, upd], rfl⟩
+
+/-- the repetitions end with the simulation task (`AddonMainTask.stop_async`) -/
+theorem no_resend_after_stop (c : Circ) (s : St) (d : Nat) : resend c (stopAll s) d = Option.none := by
+  unfold resend stopAll
+  split <;> simp_all
+
+/-- the fuel suffices for a repetition as well -/
+theorem fuel_suffices_resend (c : Circ) (s : St) (d : Nat) (p : St × Res) (hr : resend c s d = some p) :
+    p.2 ≠ .exc .outOfFuel := by
+  unfold resend at hr
+  split at hr
+  · split at hr
+    · cases hr
+      rename_i b data rep _ _ _
+      have hK : ∀ s' : St, phi c.n s' < c.fuel := fun s' => by
+        unfold Circ.fuel; have := phi_le c.n s'; omega
+      have h1 : NoOOF (resendBody (deliver c c.fuel) b d s data (rep + 1)) := by
+        unfold resendBody
+        exact andThen_G (setOutput_G (kclosed_phi c.n c.fuel) (deliver_frm c _) (deliver_G c _) _ _ _ _ (hK _))
+          (sendEdges_G (kclosed_phi c.n c.fuel) (deliver_frm c _) (deliver_G c _) _ _ _ _ (hK _))
+      generalize resendBody (deliver c c.fuel) b d s data (rep + 1) = q at h1
+      obtain ⟨s', r⟩ := q
+      cases r with
+      | ret v => simp [taskOutcome]
+      | exc y => cases y <;> simp_all [taskOutcome, NoOOF]
+    · cases hr
+  · cases hr
+
+/-! ### persistent blocks: `AddonPersistence.event` around `SBlock.event`
+
+`persistEvent` (EdzedProofs/DispatchPersist.lean) runs the action list translated from the CURRENT source of
+`AddonPersistence.event` (`Gen.TrP2.eventActs`, generated for C06) with `super().event()` = the model's
+`deliver`.  For every circuit, state, event, every value of `persistent` / `sync_state` and whether or not the
+save fails: -/
+
+/-- the wrapper never leaves `_event_active` set (nor changes any flag or frame): it adds nothing between the
+    `finally` of `SBlock.event` and its caller but the save -/
+theorem persist_wrapper_keeps_guard (c : Circ) (fuel : Nat) (sync saveRaises : Bool) (p : PSt) (d : Nat)
+    (et : EType) (data : Data) :
+    (persistEvent c fuel sync saveRaises p d et data).1.st = (deliver c fuel p.st d et data).1 := by
+  unfold persistEvent Gen.TrP2.eventActs
+  simp only []
+  repeat' split
+  all_goals simp [runPersistPrims]
+
+theorem persist_wrapper_guard_balanced (c : Circ) (fuel : Nat) (sync saveRaises : Bool) (p : PSt) (d : Nat)
+    (et : EType) (data : Data) :
+    (persistEvent c fuel sync saveRaises p d et data).1.st.active = p.st.active := by
+  rw [persist_wrapper_keeps_guard]; exact guard_balanced c fuel p.st d et data
+
+/-- **the save runs outside the guard**: at most one save per call, and `get_state()` then sees the block's
+    own `_event_active` false – the save comes after `SBlock.event` has returned (after its `finally`), never
+    for a refused or failed event, so it cannot re-enter a handler that is still running.  (What it can see is
+    an OUTER transition of the same FSM suspended in the documented chained-transition window, when this call
+    is the nested one: the harness tags those runs `saved:inside-chained-transition-window`.) -/
+theorem persist_save_runs_outside_guard (c : Circ) (fuel : Nat) (sync saveRaises : Bool) (p : PSt) (d : Nat)
+    (et : EType) (data : Data) :
+    (persistEvent c fuel sync saveRaises p d et data).1.saves = p.saves ∨
+    ((persistEvent c fuel sync saveRaises p d et data).1.saves = false :: p.saves ∧
+      isExc (deliver c fuel p.st d et data).2 = false ∧ p.st.active d = false) := by
+  have hg := congrFun (guard_balanced c fuel p.st d et data) d
+  by_cases hact : p.st.active d = true
+  · -- a busy block refuses (or the type check fails): `super().event` raises, no save
+    left
+    have hexc : isExc (deliver c fuel p.st d et data).2 = true := by
+      cases fuel with
+      | zero => simp [deliver, isExc]
+      | succ fuel =>
+        unfold deliver
+        split
+        · simp [isExc]
+        · split
+          · simp [isExc]
+          · simp [hact, isExc]
+    unfold persistEvent Gen.TrP2.eventActs
+    simp only [hexc, if_true]
+    split <;> simp [runPersistPrims]
+  · have hact : p.st.active d = false := by simpa using hact
+    unfold persistEvent Gen.TrP2.eventActs
+    simp only []
+    split
+    · left; split <;> simp [runPersistPrims]
+    · rename_i hne
+      split
+      · right
+        refine ⟨?_, by simpa using hne, hact⟩
+        split <;> simp [runPersistPrims, hg, hact]
+      · left; simp [runPersistPrims]
+
+/-- an exception of `super().event()` is re-raised unchanged (never swallowed), after persistence has been
+    disabled when the simulation is no longer ready -/
+theorem persist_wrapper_reraises (c : Circ) (fuel : Nat) (sync saveRaises : Bool) (p : PSt) (d : Nat)
+    (et : EType) (data : Data) (x : Exc) (h : (deliver c fuel p.st d et data).2 = .exc x) :
+    (persistEvent c fuel sync saveRaises p d et data).2 = some (.exc x) ∧
+    ((persistEvent c fuel sync saveRaises p d et data).1.persistent =
+      (p.persistent && (deliver c fuel p.st d et data).1.error.isNone)) := by
+  unfold persistEvent Gen.TrP2.eventActs
+  simp only [h, isExc, if_true]
+  split
+  · rename_i hc
+    simp only [Bool.and_eq_true, Bool.not_eq_eq_eq_not, Bool.not_true] at hc
+    simp [runPersistPrims, h, hc.2]
+  · rename_i hc
+    simp only [Bool.and_eq_true, Bool.not_eq_eq_eq_not, Bool.not_true, not_and, Bool.not_eq_false] at hc
+    simp only [runPersistPrims, h, true_and]
+    cases hp : p.persistent <;> simp_all
+
+/-- a handled event returns the handler's value (after the save, if any, succeeded) -/
+theorem persist_wrapper_returns (c : Circ) (fuel : Nat) (sync : Bool) (p : PSt) (d : Nat)
+    (et : EType) (data : Data) (v : Val) (h : (deliver c fuel p.st d et data).2 = .ret v) :
+    (persistEvent c fuel sync false p d et data).2 = some (.ret v) ∧
+    (persistEvent c fuel sync false p d et data).1.persistent = p.persistent := by
+  unfold persistEvent Gen.TrP2.eventActs
+  simp only [h, isExc, Bool.false_eq_true, if_false]
+  split <;> simp [runPersistPrims, h]
 
 /-! ### fuel_suffices -/
 
@@ -346,6 +659,21 @@ example : (rawSend exChain exFsmReady 0 (.name "e0") []).2 = .ret (.bool true)
     ∧ (rawSend exChain exFsmReady 0 (.name "e0") []).1.active 0 = false
     ∧ (rawSend exChain exFsmReady 0 (.name "e0") []).1.trace.length = 4 := by decide +kernel
 
+/-- a timed state s1 (default 5 s, expiry -> s0): the event `e0` with `duration=0` makes the expiry a chained
+    transition – the FSM is back in s0 when `event()` returns, no timer armed –; without the item the timer is
+    armed and the FSM stays in s1 -/
+def exDuration : Circ :=
+  ⟨[{ kind := .fsm, nStates := 2, trans := [("e0", some 0, some 1), ("e1", some 1, some 0)],
+      timed := [Option.none, some (.name "e1", 5)] }]⟩
+
+example : (rawSend exDuration exFsmReady 0 (.name "e0") [("duration", .int 0)]).1.fstate 0 = some 0
+    ∧ ((rawSend exDuration exFsmReady 0 (.name "e0") [("duration", .int 0)]).1.timer 0).isNone = true
+    ∧ (rawSend exDuration exFsmReady 0 (.name "e0") [("duration", .int 0)]).1.error = Option.none
+    ∧ (rawSend exDuration exFsmReady 0 (.name "e0") []).1.fstate 0 = some 1
+    ∧ ((rawSend exDuration exFsmReady 0 (.name "e0") []).1.timer 0).isSome = true
+    ∧ (rawSend exDuration exFsmReady 0 (.name "e0") [("duration", .int 0)]).1.active 0 = false := by
+  decide +kernel
+
 /-- the same FSM with an on_enter event of s1 (not the entry action) leading back to it: refused,
     the simulation is stopped -/
 def exFsmLoop : Circ :=
@@ -356,6 +684,91 @@ example : (rawSend exFsmLoop exFsmReady 0 (.name "e0") []).2 = .exc .circuitErro
     ∧ (rawSend exFsmLoop exFsmReady 0 (.name "e0") []).1.error = some .circuitError
     ∧ (rawSend exFsmLoop exFsmReady 0 (.name "e0") []).1.active 0 = false
     ∧ (rawSend exFsmLoop exFsmReady 0 (.name "e0") []).1.fsmActive 0 = false := by decide +kernel
+
+/-- cond callbacks: `cond_e0` sends `put` to the Input b1 whose output event leads back to the FSM: refused
+    (the FSM is locked while its condition runs), the simulation stopped, nothing locked afterwards;
+    with `cond_e0` = constant False the event is rejected and nothing at all happens -/
+def exCondLoop : Circ :=
+  ⟨[{ kind := .fsm, nStates := 2, trans := [("e0", Option.none, some 1), ("e1", Option.none, some 0)],
+      extra := [⟨1, .name "put", []⟩], conds := [("e0", [.send 0 (some (.int 1))], .const true)] },
+    { kind := .input, onOutput := [⟨0, .name "e1", []⟩] }]⟩
+
+def exCondFalse : Circ :=
+  ⟨[{ kind := .fsm, nStates := 2, trans := [("e0", Option.none, some 1)], conds := [("e0", [], .item "value")] }]⟩
+
+example : (rawSend exCondLoop exFsmReady 0 (.name "e0") []).2 = .exc .circuitError
+    ∧ (rawSend exCondLoop exFsmReady 0 (.name "e0") []).1.error = some .circuitError
+    ∧ (rawSend exCondLoop exFsmReady 0 (.name "e0") []).1.fstate 0 = some 0
+    ∧ (rawSend exCondLoop exFsmReady 0 (.name "e0") []).1.active 0 = false
+    ∧ (rawSend exCondLoop exFsmReady 0 (.name "e0") []).1.active 1 = false
+    ∧ (rawSend exCondFalse exFsmReady 0 (.name "e0") [("value", .int 0)]).2 = .ret (.bool false)
+    ∧ (rawSend exCondFalse exFsmReady 0 (.name "e0") [("value", .int 0)]).1.fstate 0 = some 0
+    ∧ (rawSend exCondFalse exFsmReady 0 (.name "e0") [("value", .int 0)]).1.error = Option.none
+    ∧ (rawSend exCondFalse exFsmReady 0 (.name "e0") [("value", .int 0)]).1.active 0 = false
+    ∧ (rawSend exCondFalse exFsmReady 0 (.name "e0") [("value", .int 3)]).2 = .ret (.bool true)
+    ∧ (rawSend exCondFalse exFsmReady 0 (.name "e0") [("value", .int 3)]).1.fstate 0 = some 1 := by
+  decide +kernel
+
+/-- the hypotheses of `cond_rejection_is_harmless` are satisfiable (the block of `exCondFalse`, value 0) -/
+example : (exCondFalse.blocks[0]?.map fun b => fsmTarget b (exFsmReady.fstate 0) (.name "e0")) = some (.to 1)
+    ∧ (CondVal.item "value").eval [("value", .int 0)] = false
+    ∧ (exFsmReady.out 0).isUndef = false := by decide +kernel
+
+/-- A -> Repeat -> A: Input b0 sends its output to the Repeat b1 whose destination is b0: the forward
+    (from inside b1's handler, b0 still busy) is refused, the simulation stopped, nothing queued, nothing locked -/
+def exRepLoop : Circ :=
+  ⟨[{ kind := .input, onOutput := [⟨1, .name "put", []⟩] }, { kind := .repeat, rdest := 0 }]⟩
+
+example : (rawSend exRepLoop exReady 0 (.name "put") [("value", .int 1)]).2 = .exc .circuitError
+    ∧ (rawSend exRepLoop exReady 0 (.name "put") [("value", .int 1)]).1.error = some .circuitError
+    ∧ ((rawSend exRepLoop exReady 0 (.name "put") [("value", .int 1)]).1.rcur 1).isNone = true
+    ∧ (rawSend exRepLoop exReady 0 (.name "put") [("value", .int 1)]).1.active 0 = false
+    ∧ (rawSend exRepLoop exReady 0 (.name "put") [("value", .int 1)]).1.active 1 = false
+    ∧ (rawSend exRepLoop exReady 0 (.name "put") [("value", .int 1)]).1.trace.length = 5 := by decide +kernel
+
+/-- a Repeat repeating to itself: a recursion on the Repeat block, refused at the forward -/
+def exRepSelf : Circ := ⟨[{ kind := .repeat, rdest := 0 }]⟩
+
+example : (rawSend exRepSelf exReady 0 (.name "put") []).2 = .exc .circuitError
+    ∧ (rawSend exRepSelf exReady 0 (.name "put") []).1.error = some .circuitError
+    ∧ (rawSend exRepSelf exReady 0 (.name "put") []).1.active 0 = false := by decide +kernel
+
+/-- Repeat b0 -> Input b1: forwarded and queued; then two repetitions, each a top-level delivery entering
+    b1's handler at depth 1; with count = 2 there is no third one; the hypotheses of
+    `repeat_resend_is_top_level` / `no_nested_handling_resend` hold in the state after the first event -/
+def exRepOk : Circ := ⟨[{ kind := .repeat, rdest := 1, rcount := some 2 }, { kind := .input }]⟩
+
+def exRepQueued : St := { (rawSend exRepOk exReady 0 (.name "put") [("value", .int 7)]).1 with trace := [] }
+
+example : Idle exRepQueued ∧ exRepQueued.trace = [] ∧ exRepQueued.out 1 = .int 7
+    ∧ (exRepQueued.rcur 0).isSome = true ∧ (resend exRepOk exRepQueued 0).isSome = true := by
+  refine ⟨⟨fun d => ?_, ?_⟩, rfl, ?_, ?_, ?_⟩
+  · have := congrFun (guard_balanced exRepOk exRepOk.fuel exReady 0 (.name "put") [("value", .int 7)]) d
+    exact this
+  · exact (deliver_frm exRepOk exRepOk.fuel exReady 0 (.name "put") [("value", .int 7)]).stack
+  all_goals decide +kernel
+
+example :
+    ((resend exRepOk exRepQueued 0).map fun p => (p.2, p.1.out 0, p.1.error, p.1.trace.length, p.1.active 1))
+      = some (.ret .none, .int 1, Option.none, 2, false)
+    ∧ (((resend exRepOk exRepQueued 0).bind fun p => resend exRepOk { p.1 with trace := [] } 0).map
+        fun q => (q.1.out 0, (resend exRepOk q.1 0).isNone)) = some (.int 2, true) := by decide +kernel
+
+/-- the loop is met by the repetition only: the repetition's own output event (0 -> 1, filtered at the
+    forward by `value` = 0 being false) reaches a probe that sends to the Repeat block … which forwards to
+    the Counter; no recursion here – but with the probe sending to itself it is refused: a failed repetition
+    aborts (`failed_resend_aborts`) -/
+def exRepLate : Circ :=
+  ⟨[{ kind := .repeat, rdest := 1, retype := .name "inc", onOutput := [⟨2, .name "a", [.ifValue]⟩] },
+    { kind := .counter, initdef := .int 0 },
+    { scriptA := [.send 0 Option.none], extra := [⟨2, .name "b", []⟩], scriptB := [.send 0 Option.none] }]⟩
+
+example :
+    let s1 : St := { (rawSend exRepLate { exReady with out := fun _ => .int 0 } 0 (.name "inc") []).1 with trace := [] }
+    s1.error = Option.none ∧
+    ((resend exRepLate s1 0).map fun p => (p.2, p.1.error, (p.1.rcur 0).isNone, p.1.active 2,
+        p.1.trace.any (fun t => match t with | .refused 2 => true | _ => false)))
+      = some (.exc .circuitError, some .circuitError, true, false, true) := by decide +kernel
 
 /-- `Idle`, `Inv`, `TraceOk` are satisfiable: the start state -/
 example : Idle exReady ∧ Inv exReady ∧ TraceOk exReady :=
@@ -374,6 +787,20 @@ example : (initAll exWindow St.start).2 = .ret .none
     ∧ (initAll exWindow St.start).1.error = Option.none
     ∧ (initAll exWindow St.start).1.active 1 = false
     ∧ (initAll exWindow St.start).1.out 1 = .int 1 := by decide +kernel
+
+/-- the persistence wrapper on the self-loop of `exLoop` (refused one level down: re-raised, nothing saved,
+    persistence disabled because the simulation was aborted) and on a handled event of `exWindow` (one save,
+    with the guard released) -/
+def exPersistent : PSt := { st := exReady, persistent := true, saves := [] }
+
+example :
+    (persistEvent exLoop 4 true false exPersistent 0 (.name "a") []).2 = some (.exc .circuitError)
+    ∧ (persistEvent exLoop 4 true false exPersistent 0 (.name "a") []).1.persistent = false
+    ∧ (persistEvent exLoop 4 true false exPersistent 0 (.name "a") []).1.saves = []
+    ∧ (persistEvent exWindow 7 true false exPersistent 0 (.name "put") [("value", .int 5)]).2 = some (.ret (.bool true))
+    ∧ (persistEvent exWindow 7 true false exPersistent 0 (.name "put") [("value", .int 5)]).1.saves = [false]
+    ∧ (persistEvent exWindow 7 true false exPersistent 0 (.name "put") [("value", .int 5)]).1.persistent = true := by
+  decide +kernel
 
 /-- harmless outcomes exist: unknown event and missing parameter on an Input -/
 example : (rawSend exWindow exReady 0 (.name "zz") []).2 = .exc .unknownEvent
@@ -498,6 +925,34 @@ theorem translated_eventcond_loop_is_resolve (c : Circ) (fuel : Nat) (b : Blk) (
           | Option.none => .ret Val.none
           | some e => .next e) :=
   loop_is_resolve c fuel b d stk0 data n et s hn het
+
+/-! #### `Repeat._event` (translated for C18 by tools/py2lean_repeat.py into `Gen.TrR.repeatEventActs`) -/
+
+/-- **The dispatch model's `repeatEvent` IS `Repeat._event` as translated from the current source**: the
+    action list generated from the method (type test, `orig_source`, `set_output(0)`, the forward with
+    `repeat=0`, and the queuing AFTER it), run with the dispatch meaning of the actions (`runRepActs`:
+    `set_output` and the forward are the model's `setOutput` / `sendEdges`, i.e. they run inside the handler
+    frame with the guard set), computes exactly `repeatEvent` – for every delivery function, block, state,
+    event type and data.  An edit of the method (queue before forwarding, no forward, another order) changes
+    the generated list and breaks this theorem. -/
+theorem translated_repeat_event_is_dispatch_model (dlv : Dlv) (b : Blk) (d : Nat) (s : St) (et : EType)
+    (data : Data) :
+    runRepActs dlv b d s data (Gen.TrR.repeatEventActs (et != b.retype)) = repeatEvent dlv b d s et data := by
+  unfold repeatEvent Gen.TrR.repeatEventActs
+  by_cases h : (et != b.retype) = true
+  · simp [h, runRepActs]
+  · simp only [h, Bool.false_eq_true, if_false, runRepActs, withOrigSource]
+    rfl
+
+/-- the repetition of the main task as translated (`Gen.TrR.maintaskIter`, timeout with an empty queue):
+    `repeat + 1`, `set_output(repeat)` then the send – the two actions `resendBody` performs, in this order,
+    and repeating goes on exactly while `repeatGoesOn` -/
+theorem translated_repeat_maintask_resend_is_dispatch_model (b : Blk) (rep : Nat) :
+    Gen.TrR.maintaskIter b.rcount true rep (.timeout true) =
+      some ⟨false, rep + 1, [.setOutput (rep + 1), .send (rep + 1)], repeatGoesOn b (rep + 1), false⟩ := by
+  unfold Gen.TrR.maintaskIter repeatGoesOn
+  simp
+  cases b.rcount <;> simp
 
 /-! non-vacuity: concrete deliveries evaluated through BOTH the translated program and the model -/
 
@@ -650,6 +1105,7 @@ theorem translated_handlers_event_consults_built_table (k : Dispatch.BKind) (mro
     simp only [Dispatch.lookupHandler, Dispatch.handlersOf, contains_keys, find_isSome_contains, hO]
   | probe => simp [mroOfKind] at hk
   | fsm => simp [mroOfKind] at hk
+  | «repeat» => simp [mroOfKind] at hk
 
 /-- non-vacuity: `Sub(AddonX, Input)` – the subclass overrides `_event_put`, the add-on contributes
     `_event_x`, `helper` is no handler; the same classes with the add-on after the SBlock side are refused -/
